@@ -994,7 +994,7 @@ impl<'a> ArxmlParser<'a> {
 fn trim_byte_string(input: &[u8]) -> &[u8] {
     let mut len = input.len();
     if len > 0 {
-        while input[len - 1].is_ascii_whitespace() {
+        while len > 0 && input[len - 1].is_ascii_whitespace() {
             len -= 1;
         }
         let start = input.iter().position(|c| !c.is_ascii_whitespace()).unwrap_or(len);
